@@ -52,6 +52,7 @@ LeafFamily ==
   \cup {Leaf(key, op, FloatV(v)) : key \in {KY, KX, KM}, op \in FloatOps, v \in FloatRanks \cup {NaN}}
   \cup {Leaf(key, op, StrV(s)) : key \in {KXY, KS}, op \in StrOps, s \in StrOperands}
   \cup {Leaf(key, "sameas", StrV(s)) : key \in {KX, KY, KYX, KE, KQ, KP, KM}, s \in {<<1>>, <<9>>}}
+  \cup {Leaf(KB, op, StrV(s)) : op \in {"sameas", "contains"}, s \in {<<1>>, <<1, 3, 10>>, <<9>>}}
   \cup {Leaf(KXY, "in", ListV(<<a, b>>)) : a \in InElems, b \in {<<1>>, <<9>>, <<1, 3, 10>>, <<>>}}
   \cup {Leaf(KE, "in", ListV(<<a, b, a>>)) : a \in {<<9>>, <<1, 9>>}, b \in InElems}
   \cup {Leaf(key, "matches", ReV(a, s)) : key \in {KXY, KE}, a \in 0..3, s \in ReLits}
